@@ -322,4 +322,12 @@ def r7_operand_literals_and_strings(ctx: Ctx) -> None:
     r4_string_characters_all_tested(ctx)
 
 
-RULES = [r1_field_packing, r2_directive_chain, r3_order_and_multiplicity, r4_text_and_binary, r5_layout_agreement, r6_address_advance, r7_operand_literals_and_strings, rb_binding_agreement, rm_no_process_lifetime_results, ru_names_bound]
+def r8_listed_names_are_the_ones_in_scope(ctx: Ctx) -> None:
+    """`for each listed expression its value`: a symbol defined next to the directive (`name = expr` in the same block, macro body or loop
+    body) is evaluated in the scope it is written in (C08.R6)"""
+    from .c08 import r6_macro_arguments_in_caller_scope
+
+    r6_macro_arguments_in_caller_scope(ctx)
+
+
+RULES = [r1_field_packing, r2_directive_chain, r3_order_and_multiplicity, r4_text_and_binary, r5_layout_agreement, r6_address_advance, r7_operand_literals_and_strings, r8_listed_names_are_the_ones_in_scope, rb_binding_agreement, rm_no_process_lifetime_results, ru_names_bound]
